@@ -64,14 +64,25 @@ def verify_one(fqn, repo=None, reg=None, facts=None, solve_it=True, tier="quick"
     return rec
 
 
+def known_open_keys():
+    """obligations listed as open known findings: decided once, no retries (they are expected not to discharge)"""
+    try:
+        with open(os.path.join(os.path.dirname(os.path.dirname(os.path.abspath(__file__))), "known_findings.json")) as fh:
+            doc = json.load(fh)
+        return set(k["obligation"] for k in doc.get("findings", []) if k.get("status") == "open")
+    except (OSError, ValueError, KeyError):
+        return set()
+
+
 def solve_slice(eng, ax, obs, tier):
     out = []
+    known = known_open_keys()
     for ob in obs:
         if z3.is_true(ob.goal):
             v, m, dt, be = "discharged", None, 0.0, "trivial"
         else:
             v, m, dt, be = solve.check(ax, ob.pc, ob.goal)
-            if v == "unknown" and not os.environ.get("PYVC_NO_RETRY"):
+            if v == "unknown" and not os.environ.get("PYVC_NO_RETRY") and ob.name.rsplit("/", 1)[0] not in known:
                 # one retry with a three times larger budget (verdicts must not flip under machine load)
                 v, m, dt2, be = solve.check(ax, ob.pc, ob.goal, timeout_ms=3 * solve.Z3_TIMEOUT_MS)
                 dt += dt2
